@@ -33,6 +33,8 @@
      ConnectedIsLive     a shell in connected(d) has d serving, registered it, and d owns the db
      OneServerPerSocket  at most one daemon serves, and a serving daemon owns the db
      ServeWhileClients   a daemon with an open registered client is serving
+     DaemonExitsOnlyWhenNoClient  a daemon on its exit path has no registered client (conns[d] is the daemon's
+                         explicit client set: Accept = connect, Exit + ConnDone = disconnect)
      RemoveOnlyOwn       no removal by path unlinked the inode of ANOTHER LIVE daemon (ghost `bad`)
      Termination (M only, weak fairness) every activation ends connected / failed
    A daemon that crashed is exempt everywhere (the statement is about the protocol, not about faults).
@@ -76,7 +78,8 @@ Lbl(a, s, d, r, b) ==
           THEN Append(hist, [a |-> a, s |-> s, d |-> d, r |-> r, bad |-> b,
                              sock |-> sock', db |-> dbLock',
                              spc |-> [i \in Shells |-> spc'[i]], sconn |-> [i \in Shells |-> sconn'[i]],
-                             dpc |-> [i \in Daemons |-> dpc'[i]], hasdb |-> [i \in Daemons |-> hasdb'[i]]])
+                             dpc |-> [i \in Daemons |-> dpc'[i]], hasdb |-> [i \in Daemons |-> hasdb'[i]],
+                             nconn |-> [i \in Daemons |-> Cardinality(conns'[i])]])
           ELSE hist
 
 \* ---- shells.  detectDaemon is os.Lstat followed by a dial: two steps, the path may change in between
@@ -258,4 +261,6 @@ Serving == {d \in Daemons : dpc[d] = "serving"}
 OneServerPerSocket == Cardinality(Serving) <= 1 /\ \A d \in Serving : dbLock = d
 ServeWhileClients == \A d \in Daemons : conns[d] \ closedc[d] # {} => dpc[d] \in {"serving", "crashed"}
 RemoveOnlyOwn == bad = {}
+\* the exit path (leaving the loop, removing the socket, closing) is entered only with NO registered client
+DaemonExitsOnlyWhenNoClient == \A d \in Daemons : dpc[d] \in {"exiting", "removed", "dbclosed", "dead"} => conns[d] = {}
 =============================================================================
